@@ -77,4 +77,28 @@ def Seg.firstIa (s : Seg) : Option Nat := s.entries.head?.map (·.ia)
 def Seg.lastIa (s : Seg) : Option Nat := s.entries.getLast?.map (·.ia)
 def Seg.len (s : Seg) : Nat := s.entries.length
 
+/-! ### what the combinator returns (pure data; assembled by `Model/Combinator`, specified by `Spec/Combine`) -/
+
+/-- data-plane segment: info field + hop fields -/
+structure PSeg where
+  consDir : Bool
+  peering : Bool
+  segid : Nat
+  ts : Nat
+  hops : List HopF
+deriving DecidableEq, Repr, Inhabited
+
+/-- the observable part of a `ScionPath` returned by `combine` -/
+structure Path where
+  src : Nat
+  dst : Nat
+  segs : List PSeg
+  /-- `metadata.mtu` -/
+  mtu : Nat
+  /-- `metadata.expiration` = `ScionPath::expiration()` -/
+  expiry : Nat
+  /-- `metadata.interfaces` -/
+  ifs : List (Nat × Nat)
+deriving DecidableEq, Repr, Inhabited
+
 end ScionVerif.Comb
